@@ -347,11 +347,19 @@ _tg, _te = _thr.make(T_CALLS, ['geodepy/convert.py'], 'convert:grid2geo:threads'
                      triple=('utm_grs80', 'isg_ans', 'roundtrip'), files_thorough=['geodepy/constants.py'], parts=4)
 
 
+from gpmc import callforms as _cf
+
+
+from gpmc import interp as _ip
+
+
 SUBCHECKS = [
     Sub('geo_roundtrip', gen_geo, ev_geo, chunk=16, floor=1000, envs=24),
     Sub('grid_lattice', gen_grid, ev_grid, chunk=8, floor=1000, envs=24),
     Sub('standalone', gen_sa, ev_sa, chunk=8, floor=500, envs=1),
     Sub('threads', _tg, _te, chunk=1, floor=3, poison=False, fresh=True, timeout=3600),
+    Sub('callforms', *_cf.make('C02', 'convert'), chunk=1, floor=1, guard=True),
+    Sub('interpreter', *_ip.make('C02', 'convert'), chunk=1, floor=5, poison=False),
 ]
 
 
